@@ -142,13 +142,19 @@ partial def parseStmt (j : LJson) : Except String Stmt := do
   | "q" => return .q (← parseQuery a)
   | "bf" =>
     -- ["bf", path, cmp, callee, arg, kw, catch]
+    -- optional 8th element: further positional arguments
     if h : a.size = 7 then
       return .bf (parsePath (← a[1].getStr?)) (← parseCmp (← a[2].getStr?)) (← getNat a[3])
         (← parseVal a[4]) (← parseVal a[5]) (← a[6].getBool?)
+    else if h : a.size = 8 then
+      return .bf (parsePath (← a[1].getStr?)) (← parseCmp (← a[2].getStr?)) (← getNat a[3])
+        (← parseVal a[4]) (← parseVal a[5]) (← a[6].getBool?) (← (← a[7].getArr?).toList.mapM parseVal)
     else err "bad bf"
   | "sb" =>
     if h : a.size = 5 then
       return .sb (← getNat a[1]) (← parseVal a[2]) (← parseVal a[3]) (← a[4].getBool?)
+    else if h : a.size = 6 then
+      return .sb (← getNat a[1]) (← parseVal a[2]) (← parseVal a[3]) (← a[4].getBool?) (← (← a[5].getArr?).toList.mapM parseVal)
     else err "bad sb"
   | "raise" => if h : a.size = 2 then return .raise (← getNat a[1]) else err "bad raise"
   | "w" =>
